@@ -6,6 +6,7 @@ import (
 	"fmt"
 	"io"
 	"runtime"
+	"runtime/debug"
 
 	structform "github.com/elastic/go-structform"
 
@@ -246,7 +247,15 @@ type largeCase struct {
 	Mode  string `json:"mode"`
 }
 
+// The parsers keep their nesting in explicit heap-allocated stacks, so the
+// goroutine stack must not grow with the nesting depth of the input: the
+// workers of these suites run with a 32 MiB goroutine stack limit (default:
+// 1 GiB), which turns recursion per nesting level into a fatal "stack
+// overflow" of the worker at 10^5..10^6 levels instead of 10^7.
+const largeMaxStack = 32 << 20
+
 func largePick(c *run.C) (*codec.Codec, largeShape, int) {
+	debug.SetMaxStack(largeMaxStack)
 	cd := codec.All[c.Idx%3]
 	shapes := largeShapes[cd.Name]
 	sh := shapes[(c.Idx/3)%len(shapes)]
